@@ -412,3 +412,20 @@ def _m24():
     bpath.uniquetrees = uniquetrees
     import vpx.harness.c12 as h
     h.uniquetrees = uniquetrees
+
+
+def _make_writer_regex(which, pattern):
+    from bfg9000.backends.make import syntax as ms
+    setattr(ms.Writer, '_Writer__' + which, re.compile(pattern))
+
+
+@mutant('make_target_no_colon')
+def _m25():
+    # ':' dropped from the target escape table
+    _make_writer_regex('target_ex', r'(\\*)(^~|[%?*\[\s#])')
+
+
+@mutant('make_dep_no_pipe')
+def _m26():
+    # '|' dropped from the dependency escape table
+    _make_writer_regex('dep_ex', r'(\\*)(^~|[?*\[\s#:])')
